@@ -1,6 +1,10 @@
 package chk
 
-import "fmt"
+import (
+	"fmt"
+
+	"golang.org/x/tools/go/ssa"
+)
 
 // Dump prints engine facts for debugging.
 func Dump(p *Prog, what string) {
@@ -12,6 +16,17 @@ func Dump(p *Prog, what string) {
 		for _, f := range p.CLIFns {
 			fmt.Println(FnName(f))
 		}
+	case "effects":
+		e := ComputeEffects(p)
+		for _, fn := range append(append([]*ssa.Function{}, p.LibFns...), p.CLIFns...) {
+			sum := e.Sum[fn]
+			fmt.Printf("%s: ret direct=%v fresh=%v content=%v unknown=%v\n", FnName(fn), sum.RetDirect.sorted(), sum.RetFresh, sum.RetContent.sorted(), sum.Unknown.sorted())
+			for _, ef := range sortedEffects(sum.Effects) {
+				fmt.Printf("    %-6s %-45s at %s in %s via %s val=%v\n", ef.Root, ef.Loc, p.Pos(ef.Pos), ef.Fn, ef.Via, ef.Val.sorted())
+			}
+		}
+	case "ext":
+		dumpExtCalls(p)
 	default:
 		fmt.Println("unknown dump", what)
 	}
